@@ -82,6 +82,8 @@ theorem const_doubles_are_symbolic_values :
   simp only [he] at h2
   exact cellMatchesDouble_sound base_constants_positive _ _ h2
 
+example : (constTable.any fun c => (constCells.lookup c.spec.name).isSome) = true := by decide +kernel
+
 /-! ### the property -/
 
 /-- C15 at full strength over the regenerated tables -/
